@@ -20,6 +20,8 @@ import SquidModel.Http1.Tok
 import SquidModel.Gen.CharSets
 import SquidModel.Gen.Http1Request
 
+deriving instance DecidableEq for Except
+
 namespace SquidModel.Http1
 open Gen.CharSets Gen.Http1Request
 
